@@ -573,7 +573,41 @@ func insertYields(path string, src []byte) ([]byte, []string, error) {
 		case *ast.GoStmt:
 			fl, ok := st.Call.Fun.(*ast.FuncLit)
 			if !ok {
-				return true
+				// go f(a, b): function value and arguments are evaluated here and now (as the
+				// language says), the new goroutine starts with a scheduling point:
+				//   { __gf := f; __ga0 := a; ...; __gid := NextGoID(site); go func() { YieldStart(site, __gid); __gf(__ga0, ...) }() }
+				site := fmt.Sprintf("%s:%d", base, fset.Position(st.Pos()).Line)
+				text := func(n ast.Node) string { return string(src[off(n.Pos()):off(n.End())]) }
+				if id, isIdent := st.Call.Fun.(*ast.Ident); isIdent && (id.Name == "close" || id.Name == "panic" || id.Name == "print" || id.Name == "println" || id.Name == "delete") {
+					return true
+				}
+				var b strings.Builder
+				fmt.Fprintf(&b, "{ __gf := %s; ", text(st.Call.Fun))
+				var args []string
+				for i, a := range st.Call.Args {
+					inline := false
+					switch x := a.(type) {
+					case *ast.BasicLit:
+						inline = true
+					case *ast.Ident:
+						inline = x.Name == "nil" || x.Name == "true" || x.Name == "false"
+					}
+					if inline {
+						args = append(args, text(a))
+						continue
+					}
+					fmt.Fprintf(&b, "__ga%d := %s; ", i, text(a))
+					args = append(args, fmt.Sprintf("__ga%d", i))
+				}
+				call := strings.Join(args, ", ")
+				if st.Call.Ellipsis.IsValid() {
+					call += "..."
+				}
+				fmt.Fprintf(&b, "__gid := __simrt.NextGoID(%q); go func() { __simrt.YieldStart(%q, __gid); __gf(%s) }() }", site, site, call)
+				b.WriteString(strings.Repeat("\n", bytes.Count(src[off(st.Pos()):off(st.End())], []byte("\n")))) // keep line numbers
+				edits = append(edits, edit{off(st.Pos()), off(st.End()), b.String()})
+				ngo++
+				return false
 			}
 			params := fl.Type.Params
 			if n := len(params.List); n > 0 {
@@ -657,9 +691,12 @@ func insertYields(path string, src []byte) ([]byte, []string, error) {
 	var out bytes.Buffer
 	pos := 0
 	for _, e := range edits {
+		if e.start < pos {
+			continue // inside a replaced go statement
+		}
 		out.Write(src[pos:e.start])
 		out.WriteString(e.text)
-		pos = e.start
+		pos = e.end
 	}
 	out.Write(src[pos:])
 	return out.Bytes(), []string{fmt.Sprintf("%s: %d channel-operation yields, %d goroutine-start yields inserted", base, nyield, ngo)}, nil
